@@ -285,6 +285,7 @@ def run(R):
                {"relations": [(k, r) for k, v in sorted(top.items()) for r in v.get("relations", [])]})
         if nrel < 3:
             R.viol("C20.relations", "instance-floor", "only %d clap relations found in antnode's options (floor 3)" % nrel)
+        custom_network_roundtrip(R, (("install", mi, bi), ("upgrade", mu, bu)))
         # subcommand names
         names = sorted({k[1].strip('"') for c in bs.calls if (c["ncallee"] or "").endswith("Command::new") for k in c["consts"]})
         disp = R.body("C20.names", "<evmlib::Network as core::fmt::Display>::fmt")
@@ -365,3 +366,79 @@ def _sources(body, op):
     locs, _ = backward_calls(body, l)
     names = {v["name"] for v in body.vars if isinstance(v["v"], list) and len(v["v"]) == 1 and v["v"][0] in locs}
     return {"var:" + n for n in names} or {"local"}
+
+
+def custom_network_roundtrip(R, models):
+    """evm-custom: the value written after each flag comes from the CustomNetwork field that the reader stores that flag's
+    value into (flag → clap field → argument position of Network::new_custom → CustomNetwork::new → struct field)."""
+    from flow import backward
+    from rules import PL
+    F = R.F
+    convs = [b for b in F.bodies.values() if b.crate == "antnode" and any(c["ncallee"] == "evmlib::Network::new_custom" for c in b.calls)]
+    if len(convs) != 1:
+        R.viol("C20.custom", "anchor-missing:new_custom-caller", "expected exactly one place in antnode turning the evm-custom subcommand into a Network (found %d)" % len(convs))
+        return
+    conv = convs[0]
+    nc = R.body("C20.custom", "evmlib::Network::new_custom")
+    cn = R.body("C20.custom", "evmlib::CustomNetwork::new")
+    bs = R.body("C20.custom", SUB)
+    if None in (conv, nc, cn, bs):
+        return
+    for b in (conv, nc, cn):
+        prep(b)
+    sub = A.clap_args(bs)   # long flag -> {"id": clap field}
+    # reader: clap field -> position in new_custom
+    pos_of_field = {}
+    for blk in conv.blocks:
+        t = blk["term"]
+        if t["k"] == "call" and callee_matches(t, ["evmlib::Network::new_custom"]):
+            for k, a in enumerate(t["args"]):
+                back = backward(conv, op_local(a))
+                for b2 in conv.blocks:
+                    for st in b2["stmts"]:
+                        if st["d"][0] in back:
+                            rv = st["rv"]
+                            pl = rv["a"][1] if rv["k"] == "use" and rv["a"][0] in ("cp", "mv") else rv.get("p") if rv["k"] == "ref" else None
+                            if pl and any(e.startswith("@") for e in pl[1:]):
+                                for e in pl[1:]:
+                                    if e.startswith(".") and not e[1:].isdigit():
+                                        pos_of_field[e[1:]] = k
+    # new_custom: position -> position in CustomNetwork::new
+    fwd = {}
+    for blk in nc.blocks:
+        t = blk["term"]
+        if t["k"] == "call" and callee_matches(t, ["evmlib::CustomNetwork::new"]):
+            for j, a in enumerate(t["args"]):
+                back = backward(nc, op_local(a))
+                for k in range(nc.argc):
+                    if PL(nc, k) & back:
+                        fwd[k] = j
+    # CustomNetwork::new: position -> struct field
+    field_of_pos = {}
+    ta = Taint(cn, through="all")
+    for blk in cn.blocks:
+        for st in blk["stmts"]:
+            rv = st["rv"]
+            if rv["k"] == "agg" and (rv.get("adt") or "").endswith("CustomNetwork"):
+                for fname, o in zip(rv["fields"], rv["ops"]):
+                    for j in range(cn.argc):
+                        if op_local(o) in ta.closure(PL(cn, j)):
+                            field_of_pos.setdefault(j, fname)
+    ok = True
+    rows = []
+    for flag in ("rpc-url", "payment-token-address", "data-payments-address"):
+        reg = sub.get(flag)
+        read_field = None
+        if reg is not None and reg["id"] in pos_of_field and pos_of_field[reg["id"]] in fwd:
+            read_field = field_of_pos.get(fwd[pos_of_field[reg["id"]]])
+        for nm, m, body in models:
+            for x in m["flags"].get("--" + flag, []):
+                wf = sorted(f.split(".")[-1] for f in x["value_fields"])
+                rows.append((nm, flag, wf, read_field))
+                if read_field is None or read_field not in wf:
+                    ok = False
+                    R.viol("C20.custom", "custom-network-field:%s!%s" % (flag, nm), "--%s is written from CustomNetwork.%s but antnode stores its value into CustomNetwork.%s" % (flag, "/".join(wf) or "?", read_field), body, x["line"])
+    if len(rows) < 6:
+        ok = False
+        R.viol("C20.custom", "instance-floor", "only %d evm-custom flag emissions found (floor 6)" % len(rows))
+    R.inst("C20.custom", "K7 table agreement", "evm-custom flags: written from the CustomNetwork field the reader stores them into", len(rows), ok, {"rows": rows})
